@@ -527,7 +527,7 @@ class SimplicialComplex(Hypergraph):
             return
         try:
             first_elem = list(first_edge)[0]
-        except TypeError:
+        except (TypeError, IndexError):  # not iterable, or an empty edge
             first_elem = None
 
         format1, format2, format3, format4 = False, False, False, False
